@@ -157,6 +157,46 @@ macro_rules! dim_checks {
                 ensure_eq!(i * a, a, "identity-left", "I A = A");
                 ensure_eq!(a + $M::<S>::zero(), a, "zero", "A + 0 = A");
                 ensure_eq!(a * (cu * sa + cv * sb), (a * cu) * sa + (a * cv) * sb, "linear", "A(au+bv) = aAu+bAv");
+                // the same ring operations through their other entry points: operand by reference, in place, iterator folds
+                ensure_eq!((&a + &b).rm(), ta.add(&tb), "add-ref-ref", "&A + &B");
+                ensure_eq!((a + &b).rm(), ta.add(&tb), "add-val-ref", "A + &B");
+                ensure_eq!((&a + b).rm(), ta.add(&tb), "add-ref-val", "&A + B");
+                ensure_eq!((&a - &b).rm(), ta.sub(&tb), "sub-ref-ref", "&A - &B");
+                ensure_eq!((a - &b).rm(), ta.sub(&tb), "sub-val-ref", "A - &B");
+                ensure_eq!((&a - b).rm(), ta.sub(&tb), "sub-ref-val", "&A - B");
+                ensure_eq!((-&a).rm(), ta.map(|x| -x), "neg-ref", "-&A");
+                ensure_eq!((&a * sa).rm(), ta.scale(sa), "mul-scalar-ref", "&A * s");
+                ensure_eq!((&a / sb).rm(), ta.map(|x| x / sb), "div-scalar-ref", "&A / s");
+                if S::ORDERED {
+                    ensure_eq!((a % sb).rm(), ta.map(|x| x % sb), "rem-scalar", "A % s element-wise");
+                    let mut m = a;
+                    m %= sb;
+                    ensure_eq!(m.rm(), ta.map(|x| x % sb), "rem_assign-scalar", "A %= s");
+                }
+                let mut m = a;
+                m += b;
+                ensure_eq!(m.rm(), ta.add(&tb), "add_assign", "A += B");
+                let mut m = a;
+                m -= b;
+                ensure_eq!(m.rm(), ta.sub(&tb), "sub_assign", "A -= B");
+                let mut m = a;
+                m -= a;
+                ensure_eq!(m, $M::<S>::zero(), "sub_assign-self", "A -= A gives zero");
+                let mut m = a;
+                m *= sa;
+                ensure_eq!(m.rm(), ta.scale(sa), "mul_assign-scalar", "A *= s");
+                let mut m = a;
+                m /= sb;
+                ensure_eq!(m.rm(), ta.map(|x| x / sb), "div_assign-scalar", "A /= s");
+                let list = [a, b, c];
+                ensure_eq!(list.iter().sum::<$M<S>>().rm(), ta.add(&tb).add(&tc), "sum-refs", "sum over &A");
+                ensure_eq!(list.iter().cloned().sum::<$M<S>>().rm(), ta.add(&tb).add(&tc), "sum-values", "sum over A");
+                ensure_eq!(list.iter().product::<$M<S>>(), a * b * c, "product-refs", "product over &A is A B C in order");
+                ensure_eq!(list.iter().cloned().product::<$M<S>>(), a * b * c, "product-values", "product over A is A B C in order");
+                ensure_eq!(list[..1].iter().sum::<$M<S>>(), a, "sum-single", "sum of one matrix");
+                ensure_eq!(list[..1].iter().product::<$M<S>>(), a, "product-single", "product of one matrix");
+                ensure_eq!(list[..0].iter().sum::<$M<S>>(), $M::<S>::zero(), "sum-empty", "empty sum is zero()");
+                ensure_eq!(list[..0].iter().product::<$M<S>>(), $M::<S>::one(), "product-empty", "empty product is one()");
                 let (cl, nt) = classify(&[&ta, &tb, &tc]);
                 pass(cl, nt)
             }
@@ -337,6 +377,30 @@ fn products_f64(d: &mut Draw) -> Outcome {
         _ => (mk_m4(&ta) + mk_m4(&tb)).rm(),
     };
     ensure!(sum == ta.add(&tb), "add-f64", "A + B is not element-wise in f64");
+    // scalar multiples from either side, difference in place: exact per entry
+    let k = d.f64_slog(1e-3, 1e3);
+    macro_rules! forms {
+        ($mk:ident) => {{
+            let (a, b) = ($mk(&ta), $mk(&tb));
+            let same = |x: RM<f64>, y: RM<f64>| (0..n).all(|c| (0..n).all(|r| x.e[c][r].to_bits() == y.e[c][r].to_bits() || (x.e[c][r].is_nan() && y.e[c][r].is_nan())));
+            ensure!(same((k * a).rm(), ta.map(|x| k * x)) && same((k * &a).rm(), ta.map(|x| k * x)), "scalar-left-mul-f64", "k * A is not k * a_ij");
+            ensure!(same((k / a).rm(), ta.map(|x| k / x)), "scalar-left-div-f64", "k / A is not k / a_ij");
+            ensure!(same((k % a).rm(), ta.map(|x| k % x)), "scalar-left-rem-f64", "k % A is not k % a_ij");
+            ensure!(same((a * k).rm(), ta.map(|x| x * k)) && same((a / k).rm(), ta.map(|x| x / k)) && same((a % k).rm(), ta.map(|x| x % k)), "scalar-right-f64", "A op k is not a_ij op k");
+            let mut m = a;
+            m -= b;
+            ensure!(same(m.rm(), ta.sub(&tb)) && same((a - b).rm(), ta.sub(&tb)), "sub-f64", "A - B / A -= B is not element-wise in f64");
+            let mut m = a;
+            m += b;
+            ensure!(same(m.rm(), ta.add(&tb)), "add_assign-f64", "A += B is not element-wise in f64");
+            ensure!(same((-a).rm(), ta.map(|x| -x)), "neg-f64", "-A is not element-wise in f64");
+        }};
+    }
+    match n {
+        2 => forms!(mk_m2),
+        3 => forms!(mk_m3),
+        _ => forms!(mk_m4),
+    }
     pass(["generic", "near-identity", "wide-magnitudes", "sparse", "diagonal"][class as usize], true)
 }
 
